@@ -57,6 +57,7 @@ structure Bus where
   limits : Limits := {}
   policy : Policy := {}
   minted : List Bytes := []         -- ghost: every unique name ever handed out, newest first
+  full : List ConnId := []          -- connections that do not read: their outgoing queue is over max_outgoing_bytes (set by the environment)
   deriving Inhabited
 
 inductive Out
